@@ -23,6 +23,9 @@ EXPLANATION = (
     "Not decided: "
     "containment and tightness for arcs (candidate angles are value dependent) and cubics near the 1e-8 threshold."
 )
+TECHNIQUE = (
+    "static analysis (no execution): ordered-box lint over every returned 4-tuple; stroke growth and Bezier extremum candidates by partial evaluation over finite scenarios with exact canonical forms; interval argument for the arc candidate range"
+)
 ASSUMPTIONS = [
     "Stroke widths are non-negative (lo - d <= hi + d needs d >= 0).",
     "Arc extremum angles (atan based enumeration over k) are numeric and not decided; only the ordered-box rule covers Arc.bbox.",
